@@ -20,16 +20,27 @@
     `ricc_returned_symmetric`); a normal return made `1 ≤ p ≤ max_iter` passes and its last
     error is ≤ tol (`ricc_return_spec`); the γ rule returns an admitted candidate of minimal
     `f_gamma` (`gamma_choice_spec`, `gamma_choice_none`).
+  * Round 2. PSD `B` over an ordered field (quadratic forms, no spectral theory):
+    `0 ⪯ residual_k ⪯ γ_(k+1) − γ_k` (`lyap_psd_order`); a normal return means the previous iterate
+    solves the equation up to `tol` entrywise and the returned `X` up to `tol·r²`, `r` the absolute
+    row sums of `A` (`lyap_psd_return_spec`; the factor is needed, see the example), hence up to
+    `tol` when `‖A‖∞ ≤ 1` (`lyap_psd_return_le_tol`). Doubling identity of the structured step:
+    the triple after `j` passes represents the `2^j`-fold composition of the one-step Riccati map
+    (`sda_doubling_step`, `sda_doubling`, `sda_fixed_point_preserved`). Nilpotent `A`: the loop
+    stops within `k+2` counted iterations and returns the exact, unique solution
+    (`lyap_nilpotent_stops`, `lyap_nilpotent_exact`, `lyap_nilpotent_unique`); uniqueness for
+    1×1 / diagonal `A` (`lyap_scalar_unique`, `lyap_diagonal_unique`).
   `np.linalg.solve` enters through the hypothesis `SolSpec` (returned solutions solve an
   invertible system); `np.linalg.cond` values are inputs of the γ rule.
   What is not proved (decided by the spec run of harness/c06.py only):
   convergence for Schur-stable `A`, the stabilising property and positive
-  semidefiniteness of the Riccati limit, the doubling identity of the SDA triple,
-  and everything on the SciPy paths.
+  semidefiniteness of the Riccati limit, and everything on the SciPy paths.
 -/
 import QEProofs.Lemmas.C06Lyap
 import QEProofs.Lemmas.C06Ricc
 import QEProofs.Lemmas.C06Gamma
+import QEProofs.Lemmas.C06Sda
+import QEProofs.Lemmas.C06LyapPsd
 
 namespace QE.C06
 open QE QE.MatAlg Finset Matrix
@@ -363,5 +374,329 @@ theorem gamma_choice_none (eps inf : K) (cands : List (K × K × K × K))
 example : gammaSel (1 : Int) 1000 [(1, 5, 7, 7), (2, 0, 3, 4), (3, 0, 1, 5), (4, 0, 1, 5)] = some 3 := by decide +kernel
 
 end gamma
+
+section lyapunov_psd
+variable {K : Type} [Field K] [LinearOrder K] [IsStrictOrderedRing K]
+
+/-- **lyap_psd_order.** For symmetric positive semidefinite `B` (`PSD`: symmetric, `xᵀBx ≥ 0` for all
+    `x` over the ordered field) and every `k ≥ 0`, in the Loewner order
+    `0 ⪯ residual_k = A^(2^k) B (A')^(2^k) ⪯ A^(2^k) γ_k (A')^(2^k) = γ_(k+1) − γ_k`,
+    with `residual_k = A γ_k A' − γ_k + B`. Also `γ_k ⪰ B ⪰ 0`. -/
+theorem lyap_psd_order {n : ℕ} (A B : M K) (hA : Dim A n n) (hB : Dim B n n) (hpsd : PSD (toMat n n B))
+    (k : ℕ) :
+    PSD (toMat n n (lyapIter A B k).2 - toMat n n B) ∧
+    PSD (toMat n n A * toMat n n (lyapIter A B k).2 * (toMat n n A)ᵀ - toMat n n (lyapIter A B k).2
+          + toMat n n B) ∧
+    PSD (toMat n n (msub (lyapIter A B (k + 1)).2 (lyapIter A B k).2)
+          - (toMat n n A * toMat n n (lyapIter A B k).2 * (toMat n n A)ᵀ - toMat n n (lyapIter A B k).2
+              + toMat n n B)) := by
+  obtain ⟨m, hm⟩ : ∃ m, 2 ^ k = m + 1 := ⟨2 ^ k - 1, by have := Nat.one_le_two_pow (n := k); omega⟩
+  have hsum : toMat n n (lyapIter A B k).2 = dsum (toMat n n A) (toMat n n B) (toMat n n A)ᵀ (m + 1) := by
+    rw [(lyap_doubling_sum A B hA hB k).2, hm]; rfl
+  rw [lyap_residual A B hA hB k, lyap_increment A B hA hB k, hsum, hm]
+  exact ⟨dsum_sub_psd _ hpsd m, (tail_le_next_increment _ hpsd m).1, (tail_le_next_increment _ hpsd m).2⟩
+
+/-- **lyap_psd_return_spec.** Exact-arithmetic meaning of a normal return for PSD `B`.
+    Let `X = γ_j` be returned (`j = its − 1`), `γ_(j-1)` the previous iterate; the loop has tested
+    `max|X − γ_(j-1)| ≤ tol`. Then
+    1. the **previous** iterate solves the equation up to `tol` entrywise:
+       `|(A γ_(j-1) A' − γ_(j-1) + B)_pq| ≤ tol`;
+    2. the residual `R = A X A' − X + B` of the **returned** `X` is PSD and `R ⪯ A (X − γ_(j-1)) A'`,
+       hence `0 ≤ R_pp ≤ tol·r_p²` and `2|R_pq| ≤ tol·(r_p² + r_q²)` with `r_p = Σ_c |A_pc|`.
+    The factor `r²` cannot be dropped: for `A = (2)`, `B = (b)`, `4b ≤ tol < 16b` the loop returns after
+    one pass with residual `16b > tol` (exact arithmetic); for `‖A‖∞ ≤ 1` see `lyap_psd_return_le_tol`.
+
+    Why a stopping rule `abs(max(γ1 − γ0))` in place of `max(abs(γ1 − γ0))` is invisible on PSD `B`:
+    the tested matrix is the increment `α γ α'`, PSD by `lyap_psd_order`, and for a PSD matrix the
+    largest entry is a (non-negative) diagonal entry which also dominates all absolute values
+    (`psd_abs_le_max_diag`: `|m_pq| ≤ max(m_pp, m_qq)`); off-diagonal entries can be negative but never
+    larger in modulus. So both expressions coincide exactly; they differ only for indefinite `B`. -/
+theorem lyap_psd_return_spec {n : ℕ} (tol : K) (maxIt : ℕ) (A B X : M K) (its : ℕ) (ds : List K)
+    (hA : Dim A n n) (hB : Dim B n n) (hpsd : PSD (toMat n n B))
+    (h : lyapDoubling tol maxIt A B = .ok X its ds) :
+    (∀ p q : Fin n,
+      |(toMat n n A * toMat n n (lyapIter A B (its - 2)).2 * (toMat n n A)ᵀ
+          - toMat n n (lyapIter A B (its - 2)).2 + toMat n n B) p q| ≤ tol) ∧
+    PSD (toMat n n A * toMat n n X * (toMat n n A)ᵀ - toMat n n X + toMat n n B) ∧
+    (∀ p : Fin n, (toMat n n A * toMat n n X * (toMat n n A)ᵀ - toMat n n X + toMat n n B) p p
+        ≤ tol * (∑ c, |toMat n n A p c|) ^ 2) ∧
+    (∀ p q : Fin n, 2 * |(toMat n n A * toMat n n X * (toMat n n A)ᵀ - toMat n n X + toMat n n B) p q|
+        ≤ tol * ((∑ c, |toMat n n A p c|) ^ 2 + (∑ c, |toMat n n A q c|) ^ 2)) := by
+  obtain ⟨h2, _, hX, hres, hinc⟩ := lyap_return_spec tol maxIt A B X its ds hA hB h
+  obtain ⟨k, hk⟩ : ∃ k, its = k + 2 := ⟨its - 2, by omega⟩
+  subst hk
+  have e1 : k + 2 - 1 = k + 1 := by omega
+  have e2 : k + 2 - 2 = k := by omega
+  rw [e1] at hX hres
+  rw [e2] at hinc ⊢
+  obtain ⟨_, hd⟩ := lyapIter_dim hA hB (k + 1)
+  -- the tested increment
+  have hXk : toMat n n X = toMat n n (lyapIter A B (k + 1)).2 := by
+    rw [hX, (lyap_doubling_sum A B hA hB (k + 1)).2]
+  have hD : toMat n n X - toMat n n (lyapIter A B k).2
+      = toMat n n (msub (lyapIter A B (k + 1)).2 (lyapIter A B k).2) := by
+    rw [toMat_msub hd, hXk]
+  obtain ⟨_, hRprev, hle⟩ := lyap_psd_order A B hA hB hpsd k
+  rw [← hD] at hle
+  -- 1. previous iterate
+  have hdiag : ∀ p : Fin n, (toMat n n A * toMat n n (lyapIter A B k).2 * (toMat n n A)ᵀ
+      - toMat n n (lyapIter A B k).2 + toMat n n B) p p ≤ tol := fun p =>
+    le_trans (psd_diag_mono hle p) (le_trans (le_abs_self _) (hinc p p))
+  refine ⟨fun p q => ?_, ?_⟩
+  · have := psd_two_abs_le hRprev p q
+    have := hdiag p; have := hdiag q
+    linarith
+  -- 2. returned iterate
+  obtain ⟨m, hm⟩ : ∃ m, 2 ^ k = m + 1 := ⟨2 ^ k - 1, by have := Nat.one_le_two_pow (n := k); omega⟩
+  have hpow : 2 ^ (k + 1) = 2 * (m + 1) := by rw [pow_succ, hm]; ring
+  have hXs : toMat n n X = dsum (toMat n n A) (toMat n n B) (toMat n n A)ᵀ (2 * (m + 1)) := by
+    rw [hX, hpow]; rfl
+  have hGs : toMat n n (lyapIter A B k).2 = dsum (toMat n n A) (toMat n n B) (toMat n n A)ᵀ (m + 1) := by
+    rw [(lyap_doubling_sum A B hA hB k).2, hm]; rfl
+  have hconj := tail_le_conj_increment (toMat n n A) hpsd m
+  rw [← hXs, ← hGs, ← hpow, ← hres] at hconj
+  have hRpsd : PSD (toMat n n A * toMat n n X * (toMat n n A)ᵀ - toMat n n X + toMat n n B) := by
+    rw [hres]; exact tterm_psd _ hpsd _
+  have hdiag2 : ∀ p : Fin n, (toMat n n A * toMat n n X * (toMat n n A)ᵀ - toMat n n X + toMat n n B) p p
+      ≤ tol * (∑ c, |toMat n n A p c|) ^ 2 := fun p =>
+    le_trans (psd_diag_mono hconj p) (conj_diag_le _ _ tol hinc p)
+  refine ⟨hRpsd, hdiag2, fun p q => ?_⟩
+  have := psd_two_abs_le hRpsd p q
+  have := hdiag2 p; have := hdiag2 q
+  linarith
+
+/-- **lyap_psd_return_le_tol.** If moreover `‖A‖∞ ≤ 1` (every absolute row sum at most 1), a normal
+    return for PSD `B` means `A X A' − X + B = 0` up to `tol` (the code's `1e-15`) in every entry,
+    in exact arithmetic. -/
+theorem lyap_psd_return_le_tol {n : ℕ} (tol : K) (maxIt : ℕ) (A B X : M K) (its : ℕ) (ds : List K)
+    (hA : Dim A n n) (hB : Dim B n n) (hpsd : PSD (toMat n n B))
+    (hrow : ∀ p : Fin n, ∑ c, |toMat n n A p c| ≤ 1)
+    (h : lyapDoubling tol maxIt A B = .ok X its ds) :
+    ∀ p q : Fin n, |(toMat n n A * toMat n n X * (toMat n n A)ᵀ - toMat n n X + toMat n n B) p q| ≤ tol := by
+  obtain ⟨_, _, _, _, hinc⟩ := lyap_return_spec tol maxIt A B X its ds hA hB h
+  obtain ⟨_, _, _, h4⟩ := lyap_psd_return_spec tol maxIt A B X its ds hA hB hpsd h
+  intro p q
+  have htol : 0 ≤ tol := le_trans (abs_nonneg _) (hinc p q)
+  have hsq : ∀ r : Fin n, (∑ c, |toMat n n A r c|) ^ 2 ≤ 1 := fun r => by
+    have h0 : 0 ≤ ∑ c, |toMat n n A r c| := sum_nonneg fun c _ => abs_nonneg _
+    nlinarith [hrow r]
+  have := h4 p q
+  nlinarith [hsq p, hsq q]
+
+/-- non-vacuity: the identity is PSD; the loop returns normally on a PSD instance with `‖A‖∞ ≤ 1` -/
+example : PSD (toMat 2 2 (ident 2 : M ℚ)) := by
+  rw [toMat_ident]
+  refine ⟨transpose_one, fun x => ?_⟩
+  unfold qf
+  rw [one_mulVec]
+  exact Finset.sum_nonneg fun i _ => mul_self_nonneg (x i)
+example : (lyapDoubling ((1 : ℚ) / 1000000000000000) 50 (M.ofRows [[1 / 2, 1 / 4], [0, 1 / 3]]) (ident 2)).its?
+    = some 7 := by decide +kernel
+/-- the factor `r²` of `lyap_psd_return_spec` is needed: `A = (2)`, `B = (1/5)`, `tol = 1` returns after one
+    pass with `X = 1`, whose residual `4·1 − 1 + 1/5 = 16/5` exceeds `tol` -/
+example : (lyapDoubling (1 : ℚ) 50 (M.ofRows [[2]]) (M.ofRows [[1 / 5]])).its? = some 2 := by decide +kernel
+
+/-- **lyap_psd_increment_max_on_diagonal.** For PSD `B` the matrix tested by the stopping rule,
+    `D = γ_(k+1) − γ_k`, is PSD, so every entry satisfies `|D_pq| ≤ max(D_pp, D_qq)` and `D_pp ≥ 0`:
+    the largest entry of `D` is a diagonal entry and equals `max|D|`. (This is why the seeded change
+    `abs(max(γ1 − γ0))` for `max(abs(γ1 − γ0))` cannot be seen on PSD `B`; entries of `D` may still
+    be negative off the diagonal.) -/
+theorem lyap_psd_increment_max_on_diagonal {n : ℕ} (A B : M K) (hA : Dim A n n) (hB : Dim B n n)
+    (hpsd : PSD (toMat n n B)) (k : ℕ) :
+    PSD (toMat n n (msub (lyapIter A B (k + 1)).2 (lyapIter A B k).2)) ∧
+    ∀ p q : Fin n,
+      0 ≤ toMat n n (msub (lyapIter A B (k + 1)).2 (lyapIter A B k).2) p p ∧
+      |toMat n n (msub (lyapIter A B (k + 1)).2 (lyapIter A B k).2) p q|
+        ≤ max (toMat n n (msub (lyapIter A B (k + 1)).2 (lyapIter A B k).2) p p)
+              (toMat n n (msub (lyapIter A B (k + 1)).2 (lyapIter A B k).2) q q) := by
+  obtain ⟨_, h2, h3⟩ := lyap_psd_order A B hA hB hpsd k
+  have hD : PSD (toMat n n (msub (lyapIter A B (k + 1)).2 (lyapIter A B k).2)) := by
+    have := psd_add h3 h2
+    rwa [sub_add_cancel] at this
+  exact ⟨hD, fun p q => ⟨psd_diag_nonneg hD p, psd_abs_le_max_diag hD p q⟩⟩
+
+end lyapunov_psd
+
+section doubling
+variable {K : Type} [CommRing K]
+
+/-- **sda_doubling_step.** One structured-doubling pass squares the Riccati map: if `Y` is a value of
+    the map `X ↦ H + A' X (I + G X)^{-1} A` of the current triple at `X` and `Z` a value at `Y`, then
+    `Z` is a value at `X` of the map of the stepped triple (`PhiRel`: the inverse is given by a witness;
+    with `I + G X` invertible it is the function value, `phiRel_iff_of_inv`). `G`, `H` symmetric. -/
+theorem sda_doubling_step {k : ℕ} (sol : M K → M K → Option (M K)) (hsol : SolSpec sol k) (s s1 : Sda K)
+    (hA : Dim s.A k k) (hG : Dim s.G k k) (hH : Dim s.H k k)
+    (hGs : (toMat k k s.G)ᵀ = toMat k k s.G) (hHs : (toMat k k s.H)ᵀ = toMat k k s.H)
+    (h : sdaStep sol s = some s1) (X Y Z : Matrix (Fin k) (Fin k) K)
+    (hXY : PhiRel (toMat k k s.A) (toMat k k s.G) (toMat k k s.H) X Y)
+    (hYZ : PhiRel (toMat k k s.A) (toMat k k s.G) (toMat k k s.H) Y Z) :
+    PhiRel (toMat k k s1.A) (toMat k k s1.G) (toMat k k s1.H) X Z := by
+  obtain ⟨V, va, _, eA, eG, eH⟩ := sdaStep_forms sol hsol s s1 hA hG hH h
+  obtain ⟨S, hS, hY⟩ := hXY
+  obtain ⟨T, hT, hZ⟩ := hYZ
+  rw [hY] at hT hZ
+  obtain ⟨c1, c2⟩ := sda_compose _ _ _ V X S T hGs hHs va hS hT
+  refine ⟨S * T, ?_, ?_⟩
+  · rw [eG, eA]; exact c1
+  · rw [hZ, eH, eA]; exact c2
+
+/-- **sda_doubling (T2).** The triple after `j` passes represents the `2^j`-fold composition of the
+    one-step Riccati map of the initial triple: every `2^j`-fold iterate `Y` of the map of `s` started
+    at `X` is a value at `X` of the map of `s_j` (all sizes, all `j`; `G0`, `H0` symmetric). -/
+theorem sda_doubling {k : ℕ} (sol : M K → M K → Option (M K)) (hsol : SolSpec sol k) (s : Sda K)
+    (hA : Dim s.A k k) (hG : Dim s.G k k) (hH : Dim s.H k k)
+    (hGs : (toMat k k s.G)ᵀ = toMat k k s.G) (hHs : (toMat k k s.H)ᵀ = toMat k k s.H) :
+    ∀ (j : ℕ) (sj : Sda K), sdaIter sol s j = some sj → ∀ X Y : Matrix (Fin k) (Fin k) K,
+      PhiRelN (toMat k k s.A) (toMat k k s.G) (toMat k k s.H) (2 ^ j) X Y →
+      PhiRel (toMat k k sj.A) (toMat k k sj.G) (toMat k k sj.H) X Y := by
+  intro j
+  induction j with
+  | zero =>
+    intro sj h X Y hN
+    simp only [sdaIter, Option.some.injEq] at h
+    subst h
+    obtain ⟨Z, hZ, hZY⟩ := hN
+    cases hZ
+    exact hZY
+  | succ j ih =>
+    intro sj h X Y hN
+    simp only [sdaIter] at h
+    cases hprev : sdaIter sol s j with
+    | none => rw [hprev] at h; cases h
+    | some sp =>
+      rw [hprev] at h
+      obtain ⟨⟨dA, dG, dH⟩, gs, hs⟩ := sda_iter_symmetric sol hsol s hA hG hH hGs hHs j sp hprev
+      have e : 2 ^ (j + 1) = 2 ^ j + 2 ^ j := by rw [pow_succ, mul_two]
+      rw [e] at hN
+      obtain ⟨Z, h1, h2⟩ := phiRelN_add _ _ _ _ _ X Y hN
+      exact sda_doubling_step sol hsol sp sj dA dG dH gs hs h X Z Y (ih sp hprev X Z h1) (ih sp hprev Z Y h2)
+
+/-- **sda_fixed_point_preserved.** A fixed point of the Riccati map of the initial triple (by
+    `riccati_fixed_point_iff`: `X − gamma I` for a solution `X` of the Riccati equation) is a fixed
+    point of the map of every later triple `(A_j, G_j, H_j)`. -/
+theorem sda_fixed_point_preserved {k : ℕ} (sol : M K → M K → Option (M K)) (hsol : SolSpec sol k) (s : Sda K)
+    (hA : Dim s.A k k) (hG : Dim s.G k k) (hH : Dim s.H k k)
+    (hGs : (toMat k k s.G)ᵀ = toMat k k s.G) (hHs : (toMat k k s.H)ᵀ = toMat k k s.H)
+    (j : ℕ) (sj : Sda K) (h : sdaIter sol s j = some sj) (X : Matrix (Fin k) (Fin k) K)
+    (hfix : PhiRel (toMat k k s.A) (toMat k k s.G) (toMat k k s.H) X X) :
+    PhiRel (toMat k k sj.A) (toMat k k sj.G) (toMat k k sj.H) X X := by
+  have hN : ∀ m, PhiRelN (toMat k k s.A) (toMat k k s.G) (toMat k k s.H) m X X := by
+    intro m
+    induction m with
+    | zero => rfl
+    | succ m ih => exact ⟨X, ih, hfix⟩
+  exact sda_doubling sol hsol s hA hG hH hGs hHs j sj h X X (hN _)
+
+/-- non-vacuity of `PhiRel`: scalar triple `(1/2, 1/2, 1/2)`, `X = 0 ↦ Y = 1/2` (witness `S = 1/2`) -/
+example : PhiRel (k := 1) (K := ℚ) ((1 / 2 : ℚ) • 1) ((1 / 2 : ℚ) • 1) ((1 / 2 : ℚ) • 1) 0 ((1 / 2 : ℚ) • 1) :=
+  ⟨(1 / 2 : ℚ) • 1, by simp, by simp⟩
+
+end doubling
+
+section nilpotent
+variable {K : Type} [Field K] [LinearOrder K] [IsStrictOrderedRing K]
+
+/-- **lyap_nilpotent_stops.** If `A^(2^k) = 0` (e.g. `A` nilpotent, `n ≤ 2^k`), `0 ≤ tol` and
+    `k + 2 ≤ max_it`, the doubling loop returns normally with `n_its ≤ k + 2` (pass `k+1` has
+    `diff = 0` exactly), for every `B`. -/
+theorem lyap_nilpotent_stops {n : ℕ} (tol : K) (maxIt : ℕ) (A B : M K) (k : ℕ)
+    (hA : Dim A n n) (hB : Dim B n n) (hnil : toMat n n A ^ (2 ^ k) = 0)
+    (htol : 0 ≤ tol) (hmax : k + 2 ≤ maxIt) :
+    ∃ X its ds, lyapDoubling tol maxIt A B = .ok X its ds ∧ its ≤ k + 2 := by
+  have hzero : lyapDiff (lyapIter A B k) (lyapIter A B (k + 1)) = 0 := by
+    unfold lyapDiff
+    obtain ⟨_, hd⟩ := lyapIter_dim hA hB (k + 1)
+    apply maxAbs_eq_zero _ (dim_msub hd)
+    rw [lyap_increment A B hA hB k, hnil, Matrix.zero_mul, Matrix.zero_mul]
+  unfold lyapDoubling
+  exact lyapLoop_stops tol maxIt A B k htol hmax hzero k 0 (maxIt + 1) [] (by omega) (by omega)
+
+/-- **lyap_nilpotent_exact.** A normal return after at least `k` doublings (`k + 1 ≤ its`) with
+    `A^(2^k) = 0` solves the Lyapunov equation exactly: `A X A' − X + B = 0`. -/
+theorem lyap_nilpotent_exact {n : ℕ} (tol : K) (maxIt : ℕ) (A B X : M K) (its : ℕ) (ds : List K) (k : ℕ)
+    (hA : Dim A n n) (hB : Dim B n n) (hnil : toMat n n A ^ (2 ^ k) = 0) (hk : k + 1 ≤ its)
+    (h : lyapDoubling tol maxIt A B = .ok X its ds) :
+    toMat n n A * toMat n n X * (toMat n n A)ᵀ - toMat n n X + toMat n n B = 0 := by
+  obtain ⟨_, _, _, hres, _⟩ := lyap_return_spec tol maxIt A B X its ds hA hB h
+  have hle : 2 ^ k ≤ 2 ^ (its - 1) := Nat.pow_le_pow_right (by norm_num) (by omega)
+  rw [hres, pow_eq_zero_of_le hle hnil, Matrix.zero_mul, Matrix.zero_mul]
+
+/-- non-vacuity: a 2×2 nilpotent `A` (`A² = 0`): the loop returns at `n_its = 3` -/
+example : (lyapDoubling (0 : ℚ) 50 (M.ofRows [[0, 3], [0, 0]]) (M.ofRows [[1, 2], [2, 5]])).its? = some 3 := by
+  decide +kernel
+
+end nilpotent
+
+section uniqueness
+variable {K : Type} [CommRing K]
+
+/-- **lyap_nilpotent_unique.** For nilpotent `A` the Lyapunov equation has at most one solution
+    (so the matrix of `lyap_nilpotent_exact` is *the* solution): two solutions differ by `D` with
+    `D = A D A'`, hence `D = A^m D (A')^m = 0`. -/
+theorem lyap_nilpotent_unique {n : ℕ} (A B X Y : Matrix (Fin n) (Fin n) K) (m : ℕ) (hnil : A ^ m = 0)
+    (hX : A * X * Aᵀ - X + B = 0) (hY : A * Y * Aᵀ - Y + B = 0) : X = Y := by
+  have hD : A * (X - Y) * Aᵀ = X - Y := by
+    have : A * (X - Y) * Aᵀ - (X - Y) = (A * X * Aᵀ - X + B) - (A * Y * Aᵀ - Y + B) := by noncomm_ring
+    rw [hX, hY, sub_zero] at this
+    exact sub_eq_zero.mp this
+  have hpow : ∀ j : ℕ, A ^ j * (X - Y) * Aᵀ ^ j = X - Y := by
+    intro j
+    induction j with
+    | zero => simp
+    | succ j ih =>
+      calc A ^ (j + 1) * (X - Y) * Aᵀ ^ (j + 1) = A ^ j * (A * (X - Y) * Aᵀ) * Aᵀ ^ j := by
+            rw [pow_succ A j, pow_succ' Aᵀ j]; noncomm_ring
+        _ = X - Y := by rw [hD, ih]
+  have := hpow m
+  rw [hnil, Matrix.zero_mul, Matrix.zero_mul] at this
+  exact sub_eq_zero.mp this.symm
+
+end uniqueness
+
+/-- **lyap_scalar_unique.** In the 1×1 case the equation `a x a − x + b = 0` has exactly one solution
+    whenever `1 − a·a` is invertible (`a² ≠ 1`), namely `b / (1 − a²)`. -/
+theorem lyap_scalar_unique {K : Type} [Field K] (a b x : K) (ha : a * a ≠ 1) :
+    a * x * a - x + b = 0 ↔ x = b / (1 - a * a) := by
+  have hne : 1 - a * a ≠ 0 := fun h => ha (sub_eq_zero.mp h).symm
+  rw [eq_div_iff hne]
+  constructor
+  · intro h
+    have e : x * (1 - a * a) = b - (a * x * a - x + b) := by ring
+    rw [e, h, sub_zero]
+  · intro h
+    have e : a * x * a - x + b = b - x * (1 - a * a) := by ring
+    rw [e, h, sub_self]
+
+/-- the entry equation `a x c − x + b = 0` has the unique solution `b / (1 − a c)` when `a c ≠ 1` -/
+theorem lyap_entry_unique {K : Type} [Field K] (a c b x : K) (hac : a * c ≠ 1) :
+    a * x * c - x + b = 0 ↔ x = b / (1 - a * c) := by
+  have hne : 1 - a * c ≠ 0 := fun h => hac (sub_eq_zero.mp h).symm
+  rw [eq_div_iff hne]
+  constructor
+  · intro h
+    have e : x * (1 - a * c) = b - (a * x * c - x + b) := by ring
+    rw [e, h, sub_zero]
+  · intro h
+    have e : a * x * c - x + b = b - x * (1 - a * c) := by ring
+    rw [e, h, sub_self]
+
+/-- **lyap_diagonal_unique.** For diagonal `A = diag(d)` with `d_i d_j ≠ 1` for all `i, j` (i.e.
+    `I − A ⊗ A` invertible) the Lyapunov equation has exactly one solution, `X_ij = B_ij / (1 − d_i d_j)`. -/
+theorem lyap_diagonal_unique {K : Type} [Field K] {n : ℕ} (d : Fin n → K) (B X : Matrix (Fin n) (Fin n) K)
+    (hd : ∀ i j, d i * d j ≠ 1) :
+    Matrix.diagonal d * X * (Matrix.diagonal d)ᵀ - X + B = 0 ↔ ∀ i j, X i j = B i j / (1 - d i * d j) := by
+  have entry : ∀ i j, (Matrix.diagonal d * X * (Matrix.diagonal d)ᵀ - X + B) i j
+      = d i * X i j * d j - X i j + B i j := by
+    intro i j
+    rw [Matrix.diagonal_transpose, Matrix.add_apply, Matrix.sub_apply, Matrix.mul_diagonal, Matrix.diagonal_mul]
+  constructor
+  · intro h i j
+    have := congrFun (congrFun h i) j
+    rw [entry] at this
+    exact (lyap_entry_unique (d i) (d j) (B i j) (X i j) (hd i j)).mp this
+  · intro h
+    ext i j
+    rw [entry]
+    exact (lyap_entry_unique (d i) (d j) (B i j) (X i j) (hd i j)).mpr (h i j)
 
 end QE.C06
